@@ -395,7 +395,9 @@ func c10(c *Ctx) {
 		reply := queryFn.Params[len(queryFn.Params)-1]
 		isSend := func(in ssa.Instruction) bool {
 			s, ok := in.(*ssa.Send)
-			return ok && s.Chan == ssa.Value(reply)
+			// on the channel it was handed, or on the lookup's reply channel itself (the field
+			// is assigned once, in the constructor)
+			return ok && (s.Chan == ssa.Value(reply) || isLookupField(s.Chan, "replyCh"))
 		}
 		sb := core.BlocksWith(queryFn, isSend)
 		// deferred form: `defer func() { reply <- r }()` registered in the entry block, before any
@@ -757,8 +759,11 @@ func c10(c *Ctx) {
 				if !ok {
 					continue
 				}
+				// a plain int32 used through sync/atomic functions, or the typed atomic.Int32
 				if bt, ok := pt.Elem().Underlying().(*types.Basic); !ok || bt.Kind() != types.Int32 {
-					continue
+					if core.QualTypeName(pt.Elem()) != "sync/atomic.Int32" {
+						continue
+					}
 				}
 				core.Calls(fn, func(ci ssa.CallInstruction) {
 					id := core.CalleeID(ci)
@@ -766,7 +771,7 @@ func c10(c *Ctx) {
 						return
 					}
 					nW++
-					okOp := id == "sync/atomic.CompareAndSwapInt32" || id == "sync/atomic.LoadInt32"
+					okOp := id == "sync/atomic.CompareAndSwapInt32" || id == "sync/atomic.LoadInt32" || id == "sync/atomic.(*Int32).CompareAndSwap" || id == "sync/atomic.(*Int32).Load"
 					r.Check(okOp, "R5.content-lookup", fmt.Sprintf("%s flag-op %s", core.FuncName(fn), strings.TrimPrefix(id, "sync/atomic.")), p.Pos(ci.Pos()), "the shared winner flag is only claimed (CAS) or read", "the shared winner flag is written with "+strings.TrimPrefix(id, "sync/atomic.")+": it is no longer a 0/1 flag, and the lookup that tests it against a constant reports not-found although a peer supplied the content (two holders in flight)")
 				})
 			}
@@ -774,7 +779,7 @@ func c10(c *Ctx) {
 		r.Check(nW >= 1, "R5.content-lookup", "winner-flag operations", "-", fmt.Sprintf("%d atomic operations on the shared flag inspected", nW), fmt.Sprintf("only %d atomic operations on a shared *int32 flag found", nW))
 	}
 	for _, fn := range p.ModuleFuncs() {
-		for _, ci := range core.CallsTo(fn, "sync/atomic.CompareAndSwapInt32") {
+		for _, ci := range core.CallsTo(fn, "sync/atomic.CompareAndSwapInt32", "sync/atomic.(*Int32).CompareAndSwap") {
 			if fn.Pkg != p.SSAPkg("portalwire") {
 				continue
 			}
